@@ -20,7 +20,7 @@ from pathlib import Path
 import numpy
 
 import histogrammar.version
-from histogrammar.util import FillMethod, PlotMethod, basestring, named
+from histogrammar.util import FillMethod, PlotMethod, basestring, hasKeys, named
 
 
 class ContainerException(Exception):
@@ -121,7 +121,7 @@ class Factory:
         if isinstance(json, basestring):
             json = jsonlib.loads(json)
 
-        if isinstance(json, dict) and "type" in json and "data" in json and "version" in json:
+        if isinstance(json, dict) and hasKeys(json.keys(), ["type", "data", "version"]):
             if isinstance(json["version"], basestring):
                 if not histogrammar.version.compatible(json["version"]):
                     raise ContainerException(
